@@ -237,6 +237,7 @@ def validate_pairs(run: Run, pairs, name: str, prop: str, jobs=16, timeout=3000)
     run.evaluations += steps
     by_tid = {p['tid']: p for p in pairs}
     nv = 0
+    T.mark_orphans(res['mismatches'])
     for m in res['mismatches']:
         p = by_tid[m['tid']]
         side = 'B' if m['step'] >= 1000 else 'A'
